@@ -1,0 +1,377 @@
+//go:build verif
+
+// Contracts (machine-checked by /verif/govc) for the runtime of generated parsers, i.e. for the
+// functions of the staticCode template as instantiated by builder.BuildParser. Comment-only file:
+// with the verif tag off it is not part of the package; with it on it adds nothing but a package
+// clause. Syntax: /verif/DESIGN.md §4. "#if" lines select on template variant flags:
+//   opt (-optimize-parser), bl (-optimize-basic-latin), lr (left recursion code present),
+//   state (state store code present), memo (memo table present), dbg (Debug/Memoize/Statistics present).
+// Labels carry the ids of the properties (/verif/properties.jsonl) an obligation serves.
+
+package builder
+
+// ======================================================================================
+// Input geometry (C02, C17)
+// ======================================================================================
+
+//@ pred runeAt(d []byte, o int) rune = decR(d[o:])
+//@ pred widthAt(d []byte, o int) int = decW(d[o:])
+
+// bnd(d,o): o is a rune boundary reachable from offset 0 by repeated decoding.
+//@ spec func bnd(d []byte, o int) bool
+// lineAt/colAt: pigeon's position function, defined along boundaries only: offset counts bytes,
+// line counts newlines (a newline at o already counts), col counts runes since the last newline
+// (the rune at o included; 0 on the newline itself).
+//@ spec func lineAt(d []byte, o int) int
+//@ spec func colAt(d []byte, o int) int
+//@ axiom pos-base: forall d []byte :: {bnd(d, 0)} bnd(d, 0) && lineAt(d, 0) == ite(runeAt(d, 0) == '\n', 2, 1) && colAt(d, 0) == ite(runeAt(d, 0) == '\n', 0, 1)
+//@ axiom pos-step: forall d []byte, o int :: {bnd(d, o)} bnd(d, o) && 0 <= o && o < len(d) ==>
+//@   | bnd(d, o + widthAt(d, o))
+//@   | && lineAt(d, o + widthAt(d, o)) == lineAt(d, o) + ite(runeAt(d, o + widthAt(d, o)) == '\n', 1, 0)
+//@   | && colAt(d, o + widthAt(d, o)) == ite(runeAt(d, o + widthAt(d, o)) == '\n', 0, colAt(d, o) + 1)
+
+// SP: a savepoint is exactly the pure function of (input, offset).
+//@ pred SP(d []byte, s savepoint) bool = bnd(d, s.offset) && 0 <= s.offset && s.offset <= len(d)
+//@   | && s.rn == runeAt(d, s.offset) && s.w == widthAt(d, s.offset)
+//@   | && s.line == lineAt(d, s.offset) && s.col == colAt(d, s.offset)
+//@ pred IsInitPt(s savepoint) bool = s.offset == 0 && s.w == 0 && s.line == 1 && s.col == 0
+
+// ======================================================================================
+// Parser invariant
+// ======================================================================================
+
+//@ pred Ctx(p *parser) bool = p != nil && p.errs != nil && p.Stats != nil
+//@   | && (forall k int :: 0 <= k && k < len(p.rstack) ==> p.rstack[k] != nil)
+//@   | && (forall k int :: 0 <= k && k < len(p.vstack) ==> p.vstack[k] != nil)
+//@   | && (forall k int :: 0 <= k && k < len(p.recoveryStack) ==> p.recoveryStack[k] != nil)
+//@   | && p.ExprCnt <= p.maxExprCnt && RulesOK(p) && DbgOK(p)
+//@ pred Inv(p *parser) bool = Ctx(p) && SP(p.data, p.pt)
+//@ pred InRule(p *parser) bool = len(p.vstack) >= 1 && len(p.rstack) >= 1
+//@ #if dbg
+//@ pred DbgOK(p *parser) bool = p.ChoiceAltCnt != nil
+//@ #else
+//@ pred DbgOK(p *parser) bool = true
+//@ #endif
+
+// The rules table maps exactly the defined rule names, each to a rule carrying that name.
+//@ spec func defined(name string) bool
+//@ pred RulesOK(p *parser) bool = forall n string :: {has(p.rules, n)} (has(p.rules, n) == defined(n)) && (has(p.rules, n) ==> p.rules[n] != nil && p.rules[n].name == n)
+
+// Stack equalities (slices are compared by length and elements, not by capacity).
+//@ pred SameRules(a []*rule, b []*rule) bool = len(a) == len(b) && forall k int :: 0 <= k && k < len(a) ==> a[k] == b[k]
+//@ pred SameMaps(a []map[string]any, b []map[string]any) bool = len(a) == len(b) && forall k int :: 0 <= k && k < len(a) ==> a[k] == b[k]
+
+// What every parse function may modify.
+//@ #if dbg
+//@ frameset PSdbg = all map[string]map[string]int, all map[string]int
+//@ #else
+//@ frameset PSdbg = p.depth
+//@ #endif
+//@ #if memo
+//@ frameset PSmemo = p.memo, all map[int]map[any]resultTuple, all map[any]resultTuple
+//@ #else
+//@ frameset PSmemo = p.depth
+//@ #endif
+//@ #if state
+//@ frameset PSstate = all storeDict, statePool
+//@ #else
+//@ frameset PSstate = all storeDict
+//@ #endif
+//@ frameset PS = p.pt, p.cur, *p.errs, p.depth, p.vstack, p.rstack, p.recoveryStack, p.maxFailPos, p.maxFailExpected, p.maxFailInvertExpected, p.ExprCnt, all map[string]any, PSdbg, PSmemo, PSstate
+
+// ======================================================================================
+// PEG semantics as an inductively defined judgement (introduction rules only):
+//   D(e, d, i, ok, j, v): expression node e, started at byte offset i of input d, yields ok,
+//   stops at offset j, with value v.  (C01; written from the property statement)
+// ======================================================================================
+
+//@ spec func D(e any, d []byte, i int, ok bool, j int, v any) bool
+
+// --- terminals ---
+// LitPre(l,d,k,i,j): the first k runes of the literal matched from i up to j (input folded to lower
+// case iff ignoreCase; a rune is only matched where the input has one, i.e. never at end of input).
+//@ spec func LitPre(l *litMatcher, d []byte, k int, i int, j int) bool
+//@ pred foldL(l *litMatcher, r rune) rune = ite(l.ignoreCase, toLower(r), r)
+//@ axiom lit-base: forall l *litMatcher, d []byte, i int :: {LitPre(l, d, 0, i, i)} LitPre(l, d, 0, i, i)
+//@ axiom lit-step: forall l *litMatcher, d []byte, k int, i int, j int :: {LitPre(l, d, k, i, j)}
+//@   | LitPre(l, d, k, i, j) && 0 <= k && k < runeCount(l.val) && widthAt(d, j) > 0 && foldL(l, runeAt(d, j)) == runeOf(l.val, k)
+//@   | ==> LitPre(l, d, k + 1, i, j + widthAt(d, j))
+//@ axiom lit-ok: forall l *litMatcher, d []byte, i int, j int, v any :: {D(l, d, i, true, j, v)}
+//@   | LitPre(l, d, runeCount(l.val), i, j) && v == d[i:j] ==> D(l, d, i, true, j, v)
+//@ axiom lit-fail: forall l *litMatcher, d []byte, k int, i int, j int :: {LitPre(l, d, k, i, j)}
+//@   | LitPre(l, d, k, i, j) && 0 <= k && k < runeCount(l.val) && (widthAt(d, j) == 0 || foldL(l, runeAt(d, j)) != runeOf(l.val, k))
+//@   | ==> D(l, d, i, false, i, nil)
+
+// ClassHit: the general matching procedure of a class on an (already folded) rune.
+//@ pred ClassHit(c *charClassMatcher, r rune) bool =
+//@   | (exists k int :: 0 <= k && k < len(c.chars) && c.chars[k] == r)
+//@   | || (exists k int :: 0 <= k && 2*k + 1 < len(c.ranges) && c.ranges[2*k] <= r && r <= c.ranges[2*k+1])
+//@   | || (exists k int :: 0 <= k && k < len(c.classes) && uniIs(c.classes[k], r))
+//@ pred foldC(c *charClassMatcher, r rune) rune = ite(c.ignoreCase, toLower(r), r)
+// ClassOK(c,d,i): the class matches at i: there is a rune there and (hit != inverted).
+//@ pred ClassOK(c *charClassMatcher, d []byte, i int) bool = widthAt(d, i) > 0 && (ClassHit(c, foldC(c, runeAt(d, i))) != c.inverted)
+//@ axiom class-ok: forall c *charClassMatcher, d []byte, i int, j int, v any :: {D(c, d, i, true, j, v)}
+//@   | ClassOK(c, d, i) && j == i + widthAt(d, i) && v == d[i:j] ==> D(c, d, i, true, j, v)
+//@ axiom class-no: forall c *charClassMatcher, d []byte, i int :: {D(c, d, i, false, i, nil)} !ClassOK(c, d, i) ==> D(c, d, i, false, i, nil)
+
+//@ axiom any-ok: forall a *anyMatcher, d []byte, i int, j int, v any :: {D(a, d, i, true, j, v)}
+//@   | widthAt(d, i) > 0 && j == i + widthAt(d, i) && v == d[i:j] ==> D(a, d, i, true, j, v)
+//@ axiom any-no: forall a *anyMatcher, d []byte, i int :: {D(a, d, i, false, i, nil)} widthAt(d, i) == 0 ==> D(a, d, i, false, i, nil)
+
+// --- sequence: one element per item; a failing item fails the sequence at its start ---
+//@ spec func SeqPre(s *seqExpr, d []byte, k int, i int, j int, a arr[int]any) bool
+//@ axiom seq-base: forall s *seqExpr, d []byte, i int, a arr[int]any :: {SeqPre(s, d, 0, i, i, a)} SeqPre(s, d, 0, i, i, a)
+//@ axiom seq-step: forall s *seqExpr, d []byte, k int, i int, j int, a arr[int]any, j2 int, v any :: {SeqPre(s, d, k, i, j, a), D(s.exprs[k], d, j, true, j2, v)}
+//@   | SeqPre(s, d, k, i, j, a) && 0 <= k && k < len(s.exprs) && D(s.exprs[k], d, j, true, j2, v) ==> SeqPre(s, d, k + 1, i, j2, store(a, k, v))
+//@ axiom seq-ok: forall s *seqExpr, d []byte, i int, j int, vs []any :: {SeqPre(s, d, len(s.exprs), i, j, arr(vs))}
+//@   | SeqPre(s, d, len(s.exprs), i, j, arr(vs)) && off(vs) == 0 && len(vs) == len(s.exprs) ==> D(s, d, i, true, j, vs)
+//@ axiom seq-fail: forall s *seqExpr, d []byte, k int, i int, j int, a arr[int]any, v any :: {SeqPre(s, d, k, i, j, a), D(s.exprs[k], d, j, false, j, v)}
+//@   | SeqPre(s, d, k, i, j, a) && 0 <= k && k < len(s.exprs) && D(s.exprs[k], d, j, false, j, v) ==> D(s, d, i, false, i, nil)
+
+// --- ordered choice: commits to the first matching alternative ---
+//@ spec func ChoicePre(c *choiceExpr, d []byte, k int, i int) bool
+//@ axiom choice-base: forall c *choiceExpr, d []byte, i int :: {ChoicePre(c, d, 0, i)} ChoicePre(c, d, 0, i)
+//@ axiom choice-step: forall c *choiceExpr, d []byte, k int, i int, v any :: {ChoicePre(c, d, k, i), D(c.alternatives[k], d, i, false, i, v)}
+//@   | ChoicePre(c, d, k, i) && 0 <= k && k < len(c.alternatives) && D(c.alternatives[k], d, i, false, i, v) ==> ChoicePre(c, d, k + 1, i)
+//@ axiom choice-ok: forall c *choiceExpr, d []byte, k int, i int, j int, v any :: {ChoicePre(c, d, k, i), D(c.alternatives[k], d, i, true, j, v)}
+//@   | ChoicePre(c, d, k, i) && 0 <= k && k < len(c.alternatives) && D(c.alternatives[k], d, i, true, j, v) ==> D(c, d, i, true, j, v)
+//@ axiom choice-fail: forall c *choiceExpr, d []byte, i int :: {ChoicePre(c, d, len(c.alternatives), i)} ChoicePre(c, d, len(c.alternatives), i) ==> D(c, d, i, false, i, nil)
+
+// --- predicates: consume nothing, value nil ---
+//@ axiom and-intro: forall a *andExpr, d []byte, i int, ok bool, j int, v any :: {D(a.expr, d, i, ok, j, v), D(a, d, i, ok, i, nil)} D(a.expr, d, i, ok, j, v) ==> D(a, d, i, ok, i, nil)
+//@ axiom not-true: forall n *notExpr, d []byte, i int, j int, v any :: {D(n.expr, d, i, true, j, v)} D(n.expr, d, i, true, j, v) ==> D(n, d, i, false, i, nil)
+//@ axiom not-false: forall n *notExpr, d []byte, i int, j int, v any :: {D(n.expr, d, i, false, j, v)} D(n.expr, d, i, false, j, v) ==> D(n, d, i, true, i, nil)
+
+// --- repetitions: greedy; one element per iteration ---
+//@ spec func RepPre(e any, d []byte, k int, i int, j int, a arr[int]any) bool
+//@ axiom rep-base: forall e any, d []byte, i int, a arr[int]any :: {RepPre(e, d, 0, i, i, a)} RepPre(e, d, 0, i, i, a)
+//@ axiom rep-step: forall e any, d []byte, k int, i int, j int, a arr[int]any, j2 int, v any :: {RepPre(e, d, k, i, j, a), D(e, d, j, true, j2, v)}
+//@   | RepPre(e, d, k, i, j, a) && 0 <= k && D(e, d, j, true, j2, v) ==> RepPre(e, d, k + 1, i, j2, store(a, k, v))
+//@ axiom star-ok: forall z *zeroOrMoreExpr, d []byte, k int, i int, j int, vs []any, v any :: {RepPre(z.expr, d, k, i, j, arr(vs)), D(z.expr, d, j, false, j, v)}
+//@   | RepPre(z.expr, d, k, i, j, arr(vs)) && off(vs) == 0 && len(vs) == k && D(z.expr, d, j, false, j, v) ==> D(z, d, i, true, j, vs)
+//@ axiom plus-ok: forall o *oneOrMoreExpr, d []byte, k int, i int, j int, vs []any, v any :: {RepPre(o.expr, d, k, i, j, arr(vs)), D(o.expr, d, j, false, j, v)}
+//@   | RepPre(o.expr, d, k, i, j, arr(vs)) && k >= 1 && off(vs) == 0 && len(vs) == k && D(o.expr, d, j, false, j, v) ==> D(o, d, i, true, j, vs)
+//@ axiom plus-fail: forall o *oneOrMoreExpr, d []byte, i int, v any :: {D(o.expr, d, i, false, i, v), D(o, d, i, false, i, nil)} D(o.expr, d, i, false, i, v) ==> D(o, d, i, false, i, nil)
+//@ axiom opt-some: forall z *zeroOrOneExpr, d []byte, i int, j int, v any :: {D(z.expr, d, i, true, j, v)} D(z.expr, d, i, true, j, v) ==> D(z, d, i, true, j, v)
+//@ axiom opt-none: forall z *zeroOrOneExpr, d []byte, i int, v any :: {D(z.expr, d, i, false, i, v)} D(z.expr, d, i, false, i, v) ==> D(z, d, i, true, i, nil)
+
+// --- transparent / oracle kinds ---
+//@ axiom label-intro: forall l *labeledExpr, d []byte, i int, ok bool, j int, v any :: {D(l.expr, d, i, ok, j, v)} D(l.expr, d, i, ok, j, v) ==> D(l, d, i, ok, j, v)
+// an action keeps the outcome of its expression; the value is whatever the block returned
+//@ axiom action-ok: forall a *actionExpr, d []byte, i int, j int, v any, w any :: {D(a.expr, d, i, true, j, v), D(a, d, i, true, j, w)} D(a.expr, d, i, true, j, v) ==> D(a, d, i, true, j, w)
+//@ axiom action-fail: forall a *actionExpr, d []byte, i int, v any :: {D(a.expr, d, i, false, i, v)} D(a.expr, d, i, false, i, v) ==> D(a, d, i, false, i, nil)
+// code predicates and state blocks: zero width, value nil, outcome decided by the block (oracle)
+//@ axiom andcode: forall a *andCodeExpr, d []byte, i int, ok bool :: {D(a, d, i, ok, i, nil)} D(a, d, i, ok, i, nil)
+//@ axiom notcode: forall a *notCodeExpr, d []byte, i int, ok bool :: {D(a, d, i, ok, i, nil)} D(a, d, i, ok, i, nil)
+//@ #if state
+//@ axiom statecode: forall a *stateCodeExpr, d []byte, i int :: {D(a, d, i, true, i, nil)} D(a, d, i, true, i, nil)
+//@ #endif
+// throw / recovery have their own contract (C14); for D any outcome that respects failure shape is admissible
+//@ axiom throw-any: forall t *throwExpr, d []byte, i int, ok bool, j int, v any :: {D(t, d, i, ok, j, v)} D(t, d, i, ok, j, v)
+//@ axiom recovery-any: forall r *recoveryExpr, d []byte, i int, ok bool, j int, v any :: {D(r, d, i, ok, j, v)} D(r, d, i, ok, j, v)
+// rule reference: transparent to the expression of the rule carrying that name; undefined rule fails
+//@ #if lr
+//@ pred PlainRule(r *rule) bool = !r.leftRecursive
+//@ #else
+//@ pred PlainRule(r *rule) bool = true
+//@ #endif
+//@ spec func DR(r *rule, d []byte, i int, ok bool, j int, v any) bool
+//@ axiom rule-intro: forall r *rule, d []byte, i int, ok bool, j int, v any :: {D(r.expr, d, i, ok, j, v)} D(r.expr, d, i, ok, j, v) ==> DR(r, d, i, ok, j, v)
+//@ #if lr
+// left-recursive rules are outside plain PEG semantics; their contract is C08's
+//@ axiom rule-lr: forall r *rule, d []byte, i int, ok bool, j int, v any :: {DR(r, d, i, ok, j, v)} r.leftRecursive ==> DR(r, d, i, ok, j, v)
+//@ #endif
+//@ axiom ref-intro: forall f *ruleRefExpr, r *rule, d []byte, i int, ok bool, j int, v any :: {DR(r, d, i, ok, j, v), D(f, d, i, ok, j, v)} DR(r, d, i, ok, j, v) && r != nil && r.name == f.name ==> D(f, d, i, ok, j, v)
+//@ axiom ref-undef: forall f *ruleRefExpr, d []byte, i int :: {D(f, d, i, false, i, nil)} !defined(f.name) ==> D(f, d, i, false, i, nil)
+
+// ======================================================================================
+// Errors (C11)
+// ======================================================================================
+
+//@ func (e *errList) add(err error)
+//@   requires [nonnil] e != nil
+//@   modifies *e
+//@   ensures [len C11] len(*e) == old(len(*e)) + 1
+//@   ensures [last C11] (*e)[old(len(*e))] == err
+//@   ensures [prefix C11] forall k int :: 0 <= k && k < old(len(*e)) ==> (*e)[k] == old((*e)[k])
+//@   safety C11
+
+// IsPErr(e, inner, pos): e is a *parserError wrapping inner, positioned at pos.
+//@ pred IsPErr(e error, inner error, pos position) bool = is(e, "*parserError") && as(e, "*parserError") != nil
+//@   | && as(e, "*parserError").Inner == inner && as(e, "*parserError").pos == pos
+// ErrPrefix: the documented prefix: file name and ":" iff a file name was given, "line:col (offset)",
+// then ": rule <displayName or name>" iff inside a rule.
+//@ pred ErrPrefix(fn string, pos position, rs []*rule) string =
+//@   | ite(fn == "", "", fn + ":") + sprintf("%d:%d (%d)", pos.line, pos.col, pos.offset)
+//@   | + ite(len(rs) == 0, "", ": " + ite(rs[len(rs)-1].displayName != "", "rule " + rs[len(rs)-1].displayName, "rule " + rs[len(rs)-1].name))
+// ErrsGrow1: the error list grew by exactly one element, the old elements are kept.
+//@ pred ErrsKept(a errList, b errList) bool = len(a) >= len(b) && forall k int :: 0 <= k && k < len(b) ==> a[k] == b[k]
+
+//@ func (p *parser) addErrAt(err error, pos position, expected []string)
+//@   requires [ctx] Ctx(p)
+//@   modifies *p.errs
+//@   ensures [len C11] len(*p.errs) == old(len(*p.errs)) + 1
+//@   ensures [prefix C11] ErrsKept(*p.errs, old(*p.errs))
+//@   ensures [last C11] IsPErr((*p.errs)[old(len(*p.errs))], err, pos)
+//@   ensures [expected C11 C12] as((*p.errs)[old(len(*p.errs))], "*parserError").expected == expected
+//@   ensures [text C11] as((*p.errs)[old(len(*p.errs))], "*parserError").prefix == ErrPrefix(p.filename, pos, p.rstack)
+//@   safety C11
+//@   frame C18
+
+//@ func (p *parser) addErr(err error)
+//@   requires [ctx] Ctx(p)
+//@   modifies *p.errs
+//@   ensures [len C11 C17] len(*p.errs) == old(len(*p.errs)) + 1
+//@   ensures [prefix C11] ErrsKept(*p.errs, old(*p.errs))
+//@   ensures [last C11 C17] IsPErr((*p.errs)[old(len(*p.errs))], err, p.pt.position)
+//@   ensures [text C11] as((*p.errs)[old(len(*p.errs))], "*parserError").prefix == ErrPrefix(p.filename, p.pt.position, p.rstack)
+//@   safety C11
+//@   frame C18
+
+// ======================================================================================
+// read / restore / sliceFrom (C01, C02, C17)
+// ======================================================================================
+
+//@ func (p *parser) read()
+//@   requires [ctx] Ctx(p)
+//@   requires [not-eof C01 C02 C17] IsInitPt(p.pt) || (SP(p.data, p.pt) && p.pt.w > 0)
+//@   modifies p.pt, *p.errs
+//@   ensures [sp C02 C17] SP(p.data, p.pt)
+//@   ensures [advance C01 C02 C17] p.pt.offset == old(p.pt.offset) + old(p.pt.w)
+//@   ensures [report C17] p.pt.rn == 0xFFFD && p.pt.w == 1 && !p.allowInvalidUTF8 ==>
+//@     | len(*p.errs) == old(len(*p.errs)) + 1 && IsPErr((*p.errs)[old(len(*p.errs))], errInvalidEncoding, p.pt.position)
+//@   ensures [quiet C17] !(p.pt.rn == 0xFFFD && p.pt.w == 1 && !p.allowInvalidUTF8) ==> *p.errs == old(*p.errs)
+//@   ensures [errs-kept C11 C17] ErrsKept(*p.errs, old(*p.errs))
+//@   safety C11 C17
+//@   frame C18
+
+//@ func (p *parser) restore(pt savepoint)
+//@   requires [ctx] p != nil
+//@   requires [sp C01 C02] SP(p.data, p.pt) && SP(p.data, pt)
+//@   modifies p.pt, p.depth
+//@   ensures [exact C01 C02 C05] p.pt == pt
+//@   safety C11
+//@   frame C18
+
+//@ func (p *parser) sliceFrom(start savepoint) (b []byte)
+//@   requires [ctx] p != nil
+//@   requires [order C01] 0 <= start.offset && start.offset <= p.pt.offset && p.pt.offset <= len(p.data)
+//@   pure
+//@   ensures [bytes C01 C17] b == p.data[start.offset:p.pt.offset]
+//@   safety C11
+
+// ---------- debug helpers (non-optimized variants): they touch only p.depth and stdout ----------
+//@ #if dbg
+//@ func (p *parser) print(prefix string, s string) (r string)
+//@   requires [ctx] p != nil
+//@   pure
+//@   ensures [id C06] r == s
+//@   frame C18
+//@ func (p *parser) printIndent(mark string, s string) (r string)
+//@   requires [ctx] p != nil
+//@   pure
+//@   ensures [id C06] r == s
+//@   frame C18
+//@ func (p *parser) in(s string) (r string)
+//@   requires [ctx] p != nil
+//@   modifies p.depth
+//@   ensures [id C06] r == s
+//@   frame C18
+//@ func (p *parser) out(s string) (r string)
+//@   requires [ctx] p != nil
+//@   modifies p.depth
+//@   ensures [id C06] r == s
+//@   frame C18
+//@ #endif
+
+// ======================================================================================
+// Farthest-failure tracking (C12)
+// ======================================================================================
+
+// An evaluation event of a terminal counts iff (matched == inverted): a failure outside a negative
+// predicate, or a match inside one.
+//@ pred Counted(p *parser, matched bool) bool = matched == p.maxFailInvertExpected
+//@ pred Wanted(p *parser, want string) string = ite(p.maxFailInvertExpected, "!" + want, want)
+//@ func (p *parser) failAt(fail bool, pos position, want string)
+//@   requires [ctx] p != nil
+//@   modifies p.maxFailPos, p.maxFailExpected
+//@   ensures [far C12] p.maxFailPos.offset == ite(Counted(p, fail) && pos.offset > old(p.maxFailPos.offset), pos.offset, old(p.maxFailPos.offset))
+//@   ensures [pos C12] p.maxFailPos == ite(Counted(p, fail) && pos.offset > old(p.maxFailPos.offset), pos, old(p.maxFailPos))
+//@   ensures [set-reset C12] Counted(p, fail) && pos.offset > old(p.maxFailPos.offset) ==> len(p.maxFailExpected) == 1 && p.maxFailExpected[0] == Wanted(p, want)
+//@   ensures [set-add C12] Counted(p, fail) && pos.offset == old(p.maxFailPos.offset) ==>
+//@     | len(p.maxFailExpected) == old(len(p.maxFailExpected)) + 1 && p.maxFailExpected[old(len(p.maxFailExpected))] == Wanted(p, want)
+//@     | && forall k int :: 0 <= k && k < old(len(p.maxFailExpected)) ==> p.maxFailExpected[k] == old(p.maxFailExpected[k])
+//@   ensures [set-keep C12] !(Counted(p, fail) && pos.offset >= old(p.maxFailPos.offset)) ==> p.maxFailExpected == old(p.maxFailExpected)
+//@   safety C11
+//@   frame C18
+
+// FailEvent: the failure record after the call is the record before it updated by exactly one
+// event (matched, pos, want) -- nothing else touched it.
+//@ pred FailEvent(p *parser, matched bool, pos position, want string) bool =
+//@   | p.maxFailPos == ite(Counted(p, matched) && pos.offset > old(p.maxFailPos.offset), pos, old(p.maxFailPos))
+//@   | && (Counted(p, matched) && pos.offset > old(p.maxFailPos.offset) ==> len(p.maxFailExpected) == 1 && p.maxFailExpected[0] == Wanted(p, want))
+//@   | && (Counted(p, matched) && pos.offset == old(p.maxFailPos.offset) ==> len(p.maxFailExpected) == old(len(p.maxFailExpected)) + 1
+//@   |       && p.maxFailExpected[old(len(p.maxFailExpected))] == Wanted(p, want)
+//@   |       && forall k int :: 0 <= k && k < old(len(p.maxFailExpected)) ==> p.maxFailExpected[k] == old(p.maxFailExpected[k]))
+//@   | && (!(Counted(p, matched) && pos.offset >= old(p.maxFailPos.offset)) ==> p.maxFailExpected == old(p.maxFailExpected))
+
+// ======================================================================================
+// Terminals (C01, C12, C15, C17)
+// ======================================================================================
+
+//@ func (p *parser) parseAnyMatcher(any *anyMatcher) (val any, ok bool)
+//@   requires [inv] Inv(p) && any != nil
+//@   modifies p.pt, *p.errs, p.depth, p.maxFailPos, p.maxFailExpected
+//@   ensures [inv C01] Inv(p)
+//@   ensures [sem C01 C17] ok == (widthAt(p.data, old(p.pt.offset)) > 0)
+//@   ensures [peg-any C01] D(any, p.data, old(p.pt.offset), ok, p.pt.offset, val)
+//@   ensures [advance C01 C17] ok ==> p.pt.offset == old(p.pt.offset) + old(p.pt.w)
+//@   ensures [bytes C01 C17] ok ==> val == p.data[old(p.pt.offset):p.pt.offset]
+//@   ensures [nofail-consume C01] !ok ==> p.pt == old(p.pt) && val == nil
+//@   ensures [one-event C12] FailEvent(p, ok, old(p.pt.position), ".")
+//@   ensures [errs-kept C11] ErrsKept(*p.errs, old(*p.errs))
+//@   safety C11 C17
+//@   frame C18
+
+//@ func (p *parser) parseLitMatcher(lit *litMatcher) (val any, ok bool)
+//@   requires [inv] Inv(p) && lit != nil
+//@   modifies p.pt, *p.errs, p.depth, p.maxFailPos, p.maxFailExpected
+//@   ensures [inv C01] Inv(p)
+//@   ensures [peg-lit C01 C17] D(lit, p.data, old(p.pt.offset), ok, p.pt.offset, val)
+//@   ensures [bytes C01 C17] ok ==> val == p.data[old(p.pt.offset):p.pt.offset]
+//@   ensures [nofail-consume C01] !ok ==> p.pt == old(p.pt) && val == nil
+//@   ensures [monotone C01] p.pt.offset >= old(p.pt.offset)
+//@   ensures [one-event C12] FailEvent(p, ok, old(p.pt.position), lit.want)
+//@   ensures [errs-kept C11] ErrsKept(*p.errs, old(*p.errs))
+//@   loop#1 invariant [sp] SP(p.data, p.pt) && Ctx(p)
+//@   loop#1 invariant [prefix C01] LitPre(lit, p.data, idx, old(p.pt.offset), p.pt.offset)
+//@   loop#1 invariant [mono] p.pt.offset >= old(p.pt.offset) && start == old(p.pt)
+//@   loop#1 invariant [fail-untouched C12] p.maxFailPos == old(p.maxFailPos) && p.maxFailExpected == old(p.maxFailExpected)
+//@   loop#1 invariant [errs] ErrsKept(*p.errs, old(*p.errs))
+//@   safety C11 C17
+//@   frame C18
+
+//@ func (p *parser) parseCharClassMatcher(chr *charClassMatcher) (val any, ok bool)
+//@   requires [inv] Inv(p) && chr != nil
+//@   requires [ranges-even] len(chr.ranges) % 2 == 0
+//@ #if bl
+// the table emitted by the builder is the general procedure restricted to Basic Latin (C15, builder side)
+//@   requires [bl-table C15] forall r rune :: 0 <= r && r < 128 ==> chr.basicLatinChars[r] == ClassHit(chr, foldC(chr, r))
+//@ #endif
+//@   modifies p.pt, *p.errs, p.depth, p.maxFailPos, p.maxFailExpected
+//@   ensures [inv C01] Inv(p)
+//@   ensures [sem C01 C15 C17] ok == ClassOK(chr, p.data, old(p.pt.offset))
+//@   ensures [peg-class C01] D(chr, p.data, old(p.pt.offset), ok, p.pt.offset, val)
+//@   ensures [advance C01 C17] ok ==> p.pt.offset == old(p.pt.offset) + old(p.pt.w)
+//@   ensures [bytes C01 C17] ok ==> val == p.data[old(p.pt.offset):p.pt.offset]
+//@   ensures [nofail-consume C01] !ok ==> p.pt == old(p.pt) && val == nil
+//@   ensures [one-event C12] FailEvent(p, ok, old(p.pt.position), chr.val)
+//@   ensures [errs-kept C11] ErrsKept(*p.errs, old(*p.errs))
+//@   loop#1 invariant [chars C01 C15] forall k int :: 0 <= k && k < idx ==> chr.chars[k] != cur
+//@   loop#1 invariant [frame] p.pt == old(p.pt) && *p.errs == old(*p.errs) && p.maxFailPos == old(p.maxFailPos) && p.maxFailExpected == old(p.maxFailExpected)
+//@   loop#2 invariant [ranges C01 C15] i % 2 == 0 && 0 <= i && forall k int :: 0 <= k && 2*k < i ==> !(chr.ranges[2*k] <= cur && cur <= chr.ranges[2*k+1])
+//@   loop#2 invariant [frame] p.pt == old(p.pt) && *p.errs == old(*p.errs) && p.maxFailPos == old(p.maxFailPos) && p.maxFailExpected == old(p.maxFailExpected)
+//@   loop#3 invariant [classes C01 C15] forall k int :: 0 <= k && k < idx ==> !uniIs(chr.classes[k], cur)
+//@   loop#3 invariant [frame] p.pt == old(p.pt) && *p.errs == old(*p.errs) && p.maxFailPos == old(p.maxFailPos) && p.maxFailExpected == old(p.maxFailExpected)
+//@   safety C11 C15 C17
+//@   frame C18
